@@ -414,6 +414,20 @@ def _ground_index_siblings(prog: Program, col: Collector, refs: Refs, cat: Catal
                 if isinstance(st, ast.Assign) and len(st.targets) == 1 and isinstance(st.targets[0], ast.Name) \
                         and any(isinstance(x, ast.Attribute) and x.attr == "data" and isinstance(x.value, ast.Name) and x.value.id == v for x in ast.walk(st.value)):
                     found.setdefault((v, st.targets[0].id), {}).setdefault(k[0], (st, node))
+        # the declared dtype of the two results: Number(data, D) / <Tensor>(data, inputs, D)
+        dtypes = {}
+        for node, k, region in regions_where(f.module, f.node, kind):
+            for st in region:
+                if isinstance(st, ast.Return) and isinstance(st.value, ast.Call) and len(st.value.args) >= 2:
+                    dtypes.setdefault(k[1], {}).setdefault(k[0], (st.value.args[-1], st))
+        for v, d in dtypes.items():
+            if "Number" in d and "Tensor" in d:
+                n += 1
+                a, b = d["Number"], d["Tensor"]
+                col.check(norm(a[0]) == norm(b[0]), f"{f.fq}::dtype for Number / Tensor `{v}`",
+                          f"both ground-index branches declare the dtype `{norm(a[0])}`",
+                          f"the Number branch declares the result with dtype `{norm(a[0])}` but the Tensor branch with `{norm(b[0])}`: the same substitution is typed differently "
+                          "for a number and for a tensor of indices (the declared bounded-integer domain need not contain the data)", f.loc(b[1]))
         for (v, tgt), d in found.items():
             if "Number" in d and "Tensor" in d:
                 n += 1
